@@ -9,6 +9,23 @@ Binding       : mode B.  Every behaviour (frame sequence) TLC enumerates / simul
                 against TLC: every observable state of the small scopes, every `out`, and every
                 variable of every state of the simulated behaviours) and by an independent 3-D
                 flood fill.
+Scopes of the specification bound here: 2x3 / 1x5 / 1x7 / 2x2 exhaustive, 3x3 / 4x4 simulated, 1x3 (quick: 1x2)
+x 4 frames at omega 0,2,2,1 (non-monotonic, zero step), 1x3 (quick: 1x2) x 2 frames over -2..1 at threshold -2 (negthr*: the strict
+property is violated by the MAXFIX = FALSE model; the counterexample is replayed -> known finding
+C12-max-pixel-nonpositive-blob or a violation; on a tree that follows the repaired rule the MAXFIX = TRUE
+model is bound instead).
+Instance families outside the model's constants (covariance argument in the header of Merge3D.tla), judged by
+the transcription on exact rationals of the float32 inputs and by the flood fill: uint16 to 65535, int32 to
+2^20, float32 k/8, int32 beyond 2^24 (rounded to float32; I^2 sums within a rounding bound), negative
+background, negative threshold on positive data, shapes 33x20 .. 40x1 / 1x40, 64x2048 and 2048x64, omega with
+zero step / non-monotonic / not float32-representable (expectation narrowed like the f2py wrapper does; omega
+sums within a rounding bound).  Further routes: output2dpeaks between peaksearch and mergelast and the .spt
+streams of peaksearcher.peaksearch / scripts/peaksearch.py (2-D peaks = the model's `res` after Peaksearch,
+frame records), measurepeaks(blim=labels made by the caller), flip1..8 and a non-trivial spatial corrector
+(dety/detz/sc/fc columns against an own table), the threaded script pipeline with --start/--step.
+A one column image (nf = 1) is labelled wrongly by connectedpixels (row i is joined to row i-2): known finding
+C12-one-column-image-labels or a violation.  finalise() twice, re-use of a finalised object and peaksearch()
+twice without mergelast() are outside the statement: recorded under notes["observations"], never judged.
 """
 from __future__ import print_function
 import os, sys, io, json, glob, time, random, subprocess
@@ -38,17 +55,112 @@ def omega_fn(om0, omstep):
     return lambda k: a + (k - 1) * b
 
 
-def make_case(ns, nf, thr, om0, omstep, frames, origin=""):
-    return {"ns": ns, "nf": nf, "thr": thr, "om0": om0, "omstep": omstep,
-            "frames": [list(map(int, f)) for f in frames], "origin": origin}
+def _pix(v):
+    v = float(v) if not isinstance(v, int) else v
+    return int(v) if float(v).is_integer() else v
 
 
-CFG = {   # static configurations: name -> (ns, nf, thr, om0, omstep)
-    "2x3_f2": (2, 3, 0, 1, 1), "2x3_f3": (2, 3, 0, 1, 1),
-    "1x5_f2": (1, 5, 0, 3, 2), "1x5_f3": (1, 5, 0, 3, 2), "1x7_f2": (1, 7, 0, 0, 1),
-    "2x2_thr1_q": (2, 2, 1, 5, -2), "2x2_thr1_f2": (2, 2, 1, 5, -2),
-    "sim_3x3": (3, 3, 2, 2, 1), "sim_4x4": (4, 4, 2, -1, 1),
+def make_case(ns, nf, thr, om0, omstep, frames, origin="", **extra):
+    """frames: the pixel values handed to the code (ints, or floats for fractional values).
+    extra: omegas = explicit list of the angles handed to the code (else om0 + k*omstep),
+           dtype  = numpy dtype name of the arrays handed to labelimage.peaksearch,
+           approx = True when some sums are not exactly representable in a double,
+           maxfix / asis = which max-pixel rule the expectation follows (negative thresholds),
+           family = name of the instance family (vacuity counts)"""
+    c = {"ns": ns, "nf": nf, "thr": thr, "om0": om0, "omstep": omstep,
+         "frames": [[_pix(v) for v in f] for f in frames], "origin": origin}
+    c.update(extra)
+    return c
+
+
+def narrow(x):
+    """exact value of the float32 the f2py wrappers / astype(float32) make of x"""
+    return M.exact(float(np.float32(x)))
+
+
+def api_omega(case, k):
+    """the python float handed to peaksearch for frame k (0-based)"""
+    if case.get("omegas") is not None:
+        return float(case["omegas"][k])
+    return float(omega_fn(case["om0"], case["omstep"])(k + 1))
+
+
+def omega_of(case):
+    """exact omega of frame k = 1, 2, ... as the kernels see it (`real omega`: float32)"""
+    if case.get("omegas") is None:
+        return omega_fn(case["om0"], case["omstep"])     # integers / dyadic: float32-exact
+    vals = [narrow(o) for o in case["omegas"]]
+    return lambda k: vals[k - 1]
+
+
+def model_frames(case):
+    """the frames as the kernels see them: every pixel rounded to float32, exactly"""
+    out = []
+    for f in case["frames"]:
+        if all(isinstance(v, int) and -(1 << 24) <= v <= (1 << 24) for v in f):
+            out.append(f)
+        else:
+            a = np.array(f, dtype=np.float64).astype(np.float32).astype(np.float64).tolist()
+            out.append([M.exact(v) for v in a])
+    return out
+
+
+def model_thr(case):
+    t = float(np.float32(case["thr"]))          # `real threshold` in connectedpixels
+    return int(t) if t.is_integer() else t
+
+
+# static configurations: name -> ns, nf, thr, om0, omstep (+ omseq, maxfix, asis)
+class _cfg(tuple):
+    """(ns, nf, thr, om0, omstep) - harness/c20_driver.py unpacks it like that - with named access and the
+    optional constants omseq / maxfix / asis"""
+    NAMES = ("ns", "nf", "thr", "om0", "omstep")
+
+    def __new__(cls, ns, nf, thr, om0, omstep, **kw):
+        t = tuple.__new__(cls, (ns, nf, thr, om0, omstep))
+        t.extra = {"omseq": None, "maxfix": False, "asis": False}
+        t.extra.update(kw)
+        return t
+
+    def __getitem__(self, k):
+        if isinstance(k, str):
+            return tuple.__getitem__(self, self.NAMES.index(k)) if k in self.NAMES else self.extra[k]
+        return tuple.__getitem__(self, k)
+
+
+CFG = {
+    "2x3_f2": _cfg(2, 3, 0, 1, 1), "2x3_f3": _cfg(2, 3, 0, 1, 1),
+    "1x5_f2": _cfg(1, 5, 0, 3, 2), "1x5_f3": _cfg(1, 5, 0, 3, 2), "1x7_f2": _cfg(1, 7, 0, 0, 1),
+    "2x2_thr1_q": _cfg(2, 2, 1, 5, -2), "2x2_thr1_f2": _cfg(2, 2, 1, 5, -2),
+    "sim_3x3": _cfg(3, 3, 2, 2, 1), "sim_4x4": _cfg(4, 4, 2, -1, 1),
+    "1x3_f4_om": _cfg(1, 3, 0, 0, 1, omseq=[0, 2, 2, 1]),
+    "1x2_f4_om": _cfg(1, 2, 0, 0, 1, omseq=[0, 2, 2, 1]),
+    "negthr": _cfg(1, 3, -2, 0, 1), "negthr_asis": _cfg(1, 3, -2, 0, 1, asis=True),
+    "negthr_fix": _cfg(1, 3, -2, 0, 1, maxfix=True),
+    "negthr_q": _cfg(1, 2, -2, 0, 1), "negthr_asis_q": _cfg(1, 2, -2, 0, 1, asis=True),
+    "negthr_fix_q": _cfg(1, 2, -2, 0, 1, maxfix=True),
 }
+FINDING_MAX = "C12-max-pixel-nonpositive-blob"
+FINDING_COL = "C12-one-column-image-labels"
+
+
+def cfg_omega(name):
+    g = CFG[name]
+    if g["omseq"]:
+        return lambda k: g["omseq"][k - 1]
+    return omega_fn(g["om0"], g["omstep"])
+
+
+def cfg_case(name, frames, origin):
+    g = CFG[name]
+    extra = {}
+    if g["omseq"]:
+        extra["omegas"] = list(g["omseq"][:len(frames)])
+    if g["maxfix"]:
+        extra["maxfix"] = True
+    if g["asis"]:
+        extra["asis"] = True
+    return make_case(g["ns"], g["nf"], g["thr"], g["om0"], g["omstep"], frames, origin, **extra)
 
 
 # ======================================================================================
@@ -63,7 +175,7 @@ def _rowsarr(rows):
 def snap(m):
     return {"pc": m.pc, "npk": m.npk, "blim": np.array(m.blim, np.int32), "res": _rowsarr(m.res),
             "lastnp": m.lastnp, "lastbl": np.array(m.lastbl, np.int32), "lastres": _rowsarr(m.lastres),
-            "lastres_exact": [list(r) for r in m.lastres],
+            "lastres_exact": [list(r) for r in m.lastres], "res_exact": [list(r) for r in m.res],
             "nout": len(m.out), "onfirst": m.onfirst, "onlast": m.onlast, "spot": m.spot,
             "called": m.kernel_called}
 
@@ -83,8 +195,8 @@ def model_step(m, frame):
 class StepCache(object):
     """model expectations for behaviours that share prefixes (behaviours come sorted)"""
 
-    def __init__(self, ns, nf, thr, omega):
-        self.args = (ns, nf, thr, omega)
+    def __init__(self, ns, nf, thr, omega, maxfix=False):
+        self.args = (ns, nf, thr, omega, None, maxfix)
         self.stack = []
 
     def get(self, frames):
@@ -101,10 +213,13 @@ class StepCache(object):
         return steps, snap(m), m
 
 
+def new_model(case):
+    return M.Model(case["ns"], case["nf"], model_thr(case), omega_of(case), maxfix=bool(case.get("maxfix")))
+
+
 def model_all(case):
-    omega = omega_fn(case["om0"], case["omstep"])
-    m = M.Model(case["ns"], case["nf"], case["thr"], omega)
-    steps = [model_step(m, f) for f in case["frames"]]
+    m = new_model(case)
+    steps = [model_step(m, f) for f in model_frames(case)]
     m.finalise()
     return steps, snap(m), m
 
@@ -140,38 +255,101 @@ class Real(object):
         return v
 
 
-def _close(x, e, scale=1.0):
-    return abs(x - e) <= 1e-9 * max(scale, abs(e), 1.0) + 1e-12
+def _close(x, e, scale=1.0, extra=0.0):
+    return abs(x - e) <= 1e-9 * max(scale, abs(e), 1.0) + 1e-12 + extra
 
 
-def check_moments(R, arr, exact_rows):
+class Ctx(object):
+    """what the comparisons need to know about a case: shape, largest |omega|, exact / bounded sums"""
+
+    def __init__(self, case):
+        self.ns, self.nf = case["ns"], case["nf"]
+        self.approx = bool(case.get("approx"))
+        om = omega_of(case)
+        self.omax = max([abs(float(om(k + 1))) for k in range(len(case["frames"]))] + [1.0])
+        # cancellation in ts - us*us etc.: the quotients carry a relative error of a few 1e-16 of
+        # coordinate^2, which is no longer below 1e-9 for coordinates in the thousands
+        c = {"s": float(self.ns), "f": float(self.nf), "o": self.omax}
+        k = 2e-14
+        self.mom_extra = {"avg_i": 0.0, "f_raw": k * c["f"], "s_raw": k * c["s"], "o_raw": k * c["o"],
+                          "m_ss": k * c["s"] ** 2, "m_ff": k * c["f"] ** 2, "m_oo": k * c["o"] ** 2,
+                          "m_sf": k * c["s"] * c["f"], "m_so": k * c["s"] * c["o"], "m_fo": k * c["f"] * c["o"]}
+
+    def tol(self, exact_rows):
+        """per element tolerance for rows compared with the exact model rows (None = exact)"""
+        if not self.approx:
+            return None
+        t = np.zeros((len(exact_rows), M.NROW))
+        idx = {"I2": M.I2_, "oI": M.OI_, "ooI": M.OOI_, "soI": M.SOI_, "foI": M.FOI_}
+        for j, r in enumerate(exact_rows):
+            d = M.approx_tolerances(r[M.N_], r[M.I_], r[M.I2_], self.omax, self.ns, self.nf)
+            for n, col in idx.items():
+                t[j, col] = float(d[n])
+        return t
+
+
+def _rows_same(a, e, tol):
+    if a.shape != e.shape:
+        return False
+    if tol is None:
+        return bool(np.array_equal(a, e))
+    return bool(np.all(np.abs(a - e) <= tol))
+
+
+def check_moments(R, arr, exact_rows, ctx=None):
     """arr: real rows after blob_moments; exact_rows: the model rows (exact sums).  None / message"""
     for k, r in enumerate(exact_rows):
         if r[M.N_] < 1:
             continue
         ex = R.moments(r)
+        if ex is None:
+            continue                 # summed intensity 0: centroid undefined, not judged
         for name in MOMENT_NAMES:
             x = float(arr[k, R.mcols[name]])
-            if not _close(x, float(ex[name])):
+            if not _close(x, float(ex[name]), extra=ctx.mom_extra[name] if ctx else 0.0):
                 return "compute_moments: row %d %s = %.12g, exact %.12g (sums %r)" % (k, name, x, float(ex[name]), r[:12])
     return None
 
 
-def expected_text(R, row, onfirst, onlast, spot):
-    """columns of one .flt line from a model row: (exact values dict, tolerance class dict)"""
+# labelimage.flip1..8 "fast, slow to dety, detz" (SAXS raster orientations), written down independently
+FLIPS = {1: lambda f, s: (f, s), 2: lambda f, s: (-f, s), 3: lambda f, s: (f, -s), 4: lambda f, s: (-f, -s),
+         5: lambda f, s: (s, f), 6: lambda f, s: (s, -f), 7: lambda f, s: (-s, f), 8: lambda f, s: (-s, -f)}
+
+
+class Affine(object):
+    """a stand-in for a spatial correction (labelimage only calls .correct(s_raw, f_raw))"""
+    splinefile, xsize, ysize = "AFFINE_TEST", 1, 1
+    A = (Fraction(5, 4), Fraction(-1, 8), Fraction(3, 2), Fraction(1, 4), Fraction(3, 4), Fraction(-2))
+
+    def correct(self, s, f):
+        a = [float(x) for x in self.A]
+        return a[0] * s + a[1] * f + a[2], a[3] * s + a[4] * f + a[5]
+
+    @classmethod
+    def exact(cls, s, f):
+        a = cls.A
+        return a[0] * s + a[1] * f + a[2], a[3] * s + a[4] * f + a[5]
+
+
+def expected_text(R, row, onfirst, onlast, spot, flip=2, affine=False):
+    """columns of one .flt line from a model row: exact values dict (a value None is not judged)"""
     ex = R.moments(row)
-    d = {"sc": ex["s_raw"], "fc": ex["f_raw"], "omega": ex["o_raw"], "Number_of_pixels": row[M.N_],
-         "avg_intensity": ex["avg_i"], "s_raw": ex["s_raw"], "f_raw": ex["f_raw"],
-         "sigs": ex["m_ss"], "sigf": ex["m_ff"], "covsf": ex["m_sf"], "sigo": ex["m_oo"],
-         "covso": ex["m_so"], "covfo": ex["m_fo"], "sum_intensity": row[M.I_], "sum_intensity^2": row[M.I2_],
+    d = {"Number_of_pixels": row[M.N_], "sum_intensity": row[M.I_], "sum_intensity^2": row[M.I2_],
          "IMax_int": row[M.MXI_], "IMax_s": row[M.MXS_], "IMax_f": row[M.MXF_], "IMax_o": row[M.MXO_],
          "Min_s": row[M.BNS_], "Max_s": row[M.BXS_], "Min_f": row[M.BNF_], "Max_f": row[M.BXF_],
-         "Min_o": row[M.BNO_], "Max_o": row[M.BXO_], "dety": -ex["f_raw"], "detz": ex["s_raw"],
+         "Min_o": row[M.BNO_], "Max_o": row[M.BXO_],
          "onfirst": onfirst, "onlast": onlast, "spot3d_id": spot}
+    if ex is not None:
+        sc, fc = Affine.exact(ex["s_raw"], ex["f_raw"]) if affine else (ex["s_raw"], ex["f_raw"])
+        dy, dz = FLIPS[flip](ex["f_raw"], ex["s_raw"])
+        d.update({"sc": sc, "fc": fc, "omega": ex["o_raw"], "avg_intensity": ex["avg_i"],
+                  "s_raw": ex["s_raw"], "f_raw": ex["f_raw"],
+                  "sigs": ex["m_ss"], "sigf": ex["m_ff"], "covsf": ex["m_sf"], "sigo": ex["m_oo"],
+                  "covso": ex["m_so"], "covfo": ex["m_fo"], "dety": dy, "detz": dz})
     return d
 
 
-def check_text(R, text, mout):
+def check_text(R, text, mout, flip=2, affine=False):
     """text of the merged-peaks file vs the model's emitted rows"""
     lines = [l for l in text.splitlines() if l.strip() and not l.startswith("#")]
     if len(lines) != len(mout):
@@ -180,33 +358,125 @@ def check_text(R, text, mout):
         tok = l.split()
         if len(tok) != R.ntitles:
             return "output line has %d columns, titles %d" % (len(tok), R.ntitles)
-        exp = expected_text(R, row, of, ol, sid)
+        exp = expected_text(R, row, of, ol, sid, flip, affine)
         for name, e in exp.items():
             x = float(tok[R.tcol[name]])
-            if abs(x - float(e)) > 0.5001e-4 + 1e-9 * abs(float(e)):
+            if not abs(x - float(e)) <= 0.5001e-4 + 1e-9 * abs(float(e)):
                 return "output file: peak %d column %s = %r, expected %.6f" % (sid, name, tok[R.tcol[name]], float(e))
     return None
 
 
-def _cmp_state(R, what, npk, blim, res, e, with_res=True):
+# ---- the 2-D peaks (.spt): labelimage.output2dpeaks, written before mergelast
+
+def expected_2d(R, row, affine=False):
+    """Number_of_pixels Average_counts s f sc fc sig_s sig_f cov_sf IMax_int of one row of `res`"""
+    ex = R.moments(row)
+    if ex is None:
+        return [row[M.N_]] + [None] * 8 + [row[M.MXI_]]
+    sc, fc = Affine.exact(ex["s_raw"], ex["f_raw"]) if affine else (ex["s_raw"], ex["f_raw"])
+    return [row[M.N_], ex["avg_i"], ex["s_raw"], ex["f_raw"], sc, fc, ex["m_ss"], ex["m_ff"], ex["m_sf"], row[M.MXI_]]
+
+
+def check_2d_rows(R, got, exact_rows, affine=False):
+    """got: parsed data lines of one output2dpeaks block; exact_rows: the model's `res` after Peaksearch"""
+    if len(got) != len(exact_rows):
+        return "%d 2-D peaks written, model has %d blobs on the frame" % (len(got), len(exact_rows))
+    for k, (g, r) in enumerate(zip(got, exact_rows)):
+        e = expected_2d(R, r, affine)
+        if len(g) != len(e):
+            return "2-D peak line has %d columns, expected %d" % (len(g), len(e))
+        for c, (x, v) in enumerate(zip(g, e)):
+            if v is not None and not abs(x - float(v)) <= 0.5001e-6 + 1e-9 * abs(float(v)):
+                return "2-D peak %d column %d = %r, expected %.7f" % (k, c, x, float(v))
+    return None
+
+
+def parse_2d_block(text):
+    """one output2dpeaks() call -> (threshold level, [rows])"""
+    lev, rows = None, []
+    for l in text.splitlines():
+        if l.startswith("# Threshold level"):
+            lev = float(l.split()[-1])
+        elif l.strip() and not l.startswith("#"):
+            rows.append([float(t) for t in l.split()])
+    return lev, rows
+
+
+def parse_spt(text):
+    """the .spt stream of peaksearcher.peaksearch: list of frames {"file", "blocks": [{"omega", "thr",
+    "npks", "level", "rows"}]} (one block per threshold searched into this stream)"""
+    frames, cur, blk, last_om = [], None, None, None
+    for l in text.splitlines():
+        if l.startswith("# File "):
+            cur = {"file": l[7:].strip(), "blocks": []}
+            frames.append(cur)
+            blk = None
+        elif cur is None:
+            continue
+        elif l.startswith("# Omega = "):
+            try:
+                last_om = float(l[10:])
+            except ValueError:
+                pass
+        elif l.startswith("# Threshold = "):
+            blk = {"omega": last_om, "thr": float(l[14:]), "npks": None, "level": None, "rows": []}
+            cur["blocks"].append(blk)
+        elif l.startswith("# npks = ") and blk is not None:
+            blk["npks"] = int(l[9:])
+        elif l.startswith("# Threshold level") and blk is not None:
+            blk["level"] = float(l.split()[-1])
+        elif l.strip() and not l.startswith("#") and blk is not None:
+            blk["rows"].append([float(t) for t in l.split()])
+    return frames
+
+
+def check_spt(R, text, case, steps, what):
+    """every frame of the series has one block in the stream of its threshold: omega, threshold, number
+    of blobs and the 2-D peaks of that frame (the model's `res` after Peaksearch, in label order)"""
+    fr = parse_spt(text)
+    if len(fr) != len(steps):
+        return "%s: %d frames in the .spt stream, %d searched" % (what, len(fr), len(steps))
+    for k, (f, (es, _eo, _ei)) in enumerate(zip(fr, steps)):
+        mine = [b for b in f["blocks"] if b["thr"] == float(case["thr"])]
+        if len(mine) != 1:
+            return "%s frame %d: %d blocks for threshold %g" % (what, k, len(mine), case["thr"])
+        b = mine[0]
+        if b["omega"] is None or abs(b["omega"] - api_omega(case, k)) > 0.5001e-6:
+            return "%s frame %d: '# Omega = %r', searched at %r" % (what, k, b["omega"], api_omega(case, k))
+        if b["npks"] != es["npk"]:
+            return "%s frame %d: '# npks = %r', the frame has %d blobs" % (what, k, b["npks"], es["npk"])
+        if es["npk"] > 0 and b["level"] != float(case["thr"]):
+            return "%s frame %d: '# Threshold level %r'" % (what, k, b["level"])
+        msg = check_2d_rows(R, b["rows"], es["res_exact"])
+        if msg:
+            return "%s frame %d: %s" % (what, k, msg)
+    return None
+
+
+def _cmp_state(R, what, npk, blim, res, e, with_res=True, ctx=None):
     if int(npk) != e["npk"]:
         return "%s: npk = %r, model %d" % (what, npk, e["npk"])
     if not np.array_equal(np.asarray(blim).ravel(), e["blim"]):
-        return "%s: blim = %r, model %r" % (what, np.asarray(blim).ravel().tolist(), e["blim"].tolist())
+        return "%s: blim = %r, model %r" % (what, _short(np.asarray(blim).ravel()), _short(e["blim"]))
     if with_res:
         a = R.raw(res)
-        if a.shape != e["res"].shape or not np.array_equal(a, e["res"]):
+        if not _rows_same(a, e["res"], ctx.tol(e["res_exact"]) if ctx else None):
             return "%s: res[:, s_1..bb_mn_o] = %r, model %r" % (what, a.tolist(), e["res"].tolist())
     return None
 
 
-def _cmp_last(R, what, lastnp, lastbl, lastres, e):
+def _short(a):
+    a = np.asarray(a)
+    return a.tolist() if a.size <= 64 else "<%d labels, %d non-zero>" % (a.size, int((a != 0).sum()))
+
+
+def _cmp_last(R, what, lastnp, lastbl, lastres, e, ctx=None):
     if lastnp == "FIRST" or int(lastnp) != e["lastnp"]:
         return "%s: lastnp = %r, model %d" % (what, lastnp, e["lastnp"])
     if not np.array_equal(np.asarray(lastbl).ravel(), e["lastbl"]):
-        return "%s: lastbl = %r, model %r" % (what, np.asarray(lastbl).ravel().tolist(), e["lastbl"].tolist())
+        return "%s: lastbl = %r, model %r" % (what, _short(np.asarray(lastbl).ravel()), _short(e["lastbl"]))
     a = R.raw(lastres)
-    if a.shape != e["lastres"].shape or not np.array_equal(a, e["lastres"]):
+    if not _rows_same(a, e["lastres"], ctx.tol(e["lastres_exact"]) if ctx else None):
         return "%s: lastres[:, s_1..bb_mn_o] = %r, model %r" % (what, a.tolist(), e["lastres"].tolist())
     return None
 
@@ -215,13 +485,27 @@ def _frame_array(case, k, dtype):
     return np.array(case["frames"][k], dtype=dtype).reshape(case["ns"], case["nf"])
 
 
-def route_labelimage(R, case, steps, final, mout, path=None, dtype=np.float64, collect=None):
+def _dtype_of(case, dtype):
+    return np.dtype(dtype if dtype is not None else case.get("dtype", "float64"))
+
+
+def route_labelimage(R, case, steps, final, mout, path=None, dtype=None, collect=None,
+                     flip=None, affine=False, with2d=False, measure=False, stats=None):
     """real labelimage object: peaksearch / mergelast / finalise, output parsed back.
-    Returns None or the first divergence.  collect (list) receives the emitted raw rows."""
-    omega = omega_fn(case["om0"], case["omstep"])
+    Returns None or the first divergence.  collect (list) receives the emitted raw rows.
+    flip = 1..8: labelimage(flipper=flipN); affine: a non-trivial spatial corrector;
+    with2d: output2dpeaks() between peaksearch and mergelast (as peaksearcher.peaksearch does), its
+    block judged; measure: labels made by the caller and handed over as measurepeaks(blim=...)."""
+    ctx = Ctx(case)
+    dtype = _dtype_of(case, dtype)
     out = open(path, "w") if path else io.StringIO()
     try:
-        li = R.labelimage.labelimage((case["ns"], case["nf"]), fileout=out, sptfile=io.StringIO())
+        kw = {}
+        if flip is not None:
+            kw["flipper"] = getattr(R.labelimage, "flip%d" % flip)
+        if affine:
+            kw["spatial"] = Affine()
+        li = R.labelimage.labelimage((case["ns"], case["nf"]), fileout=out, sptfile=io.StringIO(), **kw)
         captured = []
         orig = li.outputpeaks
 
@@ -230,15 +514,37 @@ def route_labelimage(R, case, steps, final, mout, path=None, dtype=np.float64, c
             return orig(peaks)
         li.outputpeaks = capture
         for k, (es, eo, ei) in enumerate(steps):
-            li.peaksearch(_frame_array(case, k, dtype), case["thr"], float(omega(k + 1)))
-            msg = _cmp_state(R, "frame %d after peaksearch" % k, li.npk, li.blim, li.res, es)
+            if measure:
+                d = _frame_array(case, k, dtype).astype(np.float32)
+                own = np.zeros((case["ns"], case["nf"]), np.int32)
+                R.c.connectedpixels(d, own, case["thr"], 0)
+                li.threshold = case["thr"]
+                li.measurepeaks(d, api_omega(case, k), blim=own)
+            else:
+                li.peaksearch(_frame_array(case, k, dtype), case["thr"], api_omega(case, k))
+            msg = _cmp_state(R, "frame %d after peaksearch" % k, li.npk, li.blim, li.res, es, ctx=ctx)
             if msg:
                 return msg
+            if with2d and li.npk > 0:
+                f2 = io.StringIO()
+                li.output2dpeaks(f2)
+                lev, got = parse_2d_block(f2.getvalue())
+                if lev != float(case["thr"]):
+                    return "frame %d output2dpeaks: '# Threshold level %r', searched at %r" % (k, lev, case["thr"])
+                msg = check_2d_rows(R, got, es["res_exact"], affine)
+                if msg:
+                    return "frame %d output2dpeaks: %s" % (k, msg)
+                msg = _cmp_state(R, "frame %d after output2dpeaks" % k, li.npk, li.blim, li.res, es, ctx=ctx)
+                if msg:
+                    return msg
+                if stats is not None:
+                    stats["2d_blocks"] = stats.get("2d_blocks", 0) + 1
+                    stats["2d_peaks"] = stats.get("2d_peaks", 0) + len(got)
             ncap = len(captured)
             li.mergelast()
             what = "frame %d after mergelast" % k
             msg = _cmp_state(R, what, li.npk, li.blim, None, ei, with_res=False) or \
-                _cmp_last(R, what, li.lastnp, li.lastbl, li.lastres, ei)
+                _cmp_last(R, what, li.lastnp, li.lastbl, li.lastres, ei, ctx=ctx)
             if msg:
                 return msg
             if (li.onfirst, li.onlast, li.spot3d_id) != (ei["onfirst"], ei["onlast"], ei["spot"]):
@@ -249,10 +555,10 @@ def route_labelimage(R, case, steps, final, mout, path=None, dtype=np.float64, c
                 return "%s: outputpeaks called %d times, model %d" % (what, len(captured) - ncap, want)
             if want:
                 a = captured[-1]
-                if a[:, R.cols].shape != eo["lastres"].shape or not np.array_equal(a[:, R.cols], eo["lastres"]):
+                if not _rows_same(a[:, R.cols], eo["lastres"], ctx.tol(eo["lastres_exact"])):
                     return "%s: rows handed to outputpeaks %r, model (state at return of bloboverlaps) %r" % (
                         what, a[:, R.cols].tolist(), eo["lastres"].tolist())
-                msg = check_moments(R, a, eo["lastres_exact"])
+                msg = check_moments(R, a, eo["lastres_exact"], ctx)
                 if msg:
                     return what + ": " + msg
         ncap = len(captured)
@@ -263,9 +569,9 @@ def route_labelimage(R, case, steps, final, mout, path=None, dtype=np.float64, c
             return "finalise: outputpeaks called %d times, model %d" % (len(captured) - ncap, want)
         if want:
             a = captured[-1]
-            if a[:, R.cols].shape != last["lastres"].shape or not np.array_equal(a[:, R.cols], last["lastres"]):
+            if not _rows_same(a[:, R.cols], last["lastres"], ctx.tol(last["lastres_exact"])):
                 return "finalise: rows handed to outputpeaks %r, model %r" % (a[:, R.cols].tolist(), last["lastres"].tolist())
-            msg = check_moments(R, a, last["lastres_exact"])
+            msg = check_moments(R, a, last["lastres_exact"], ctx)
             if msg:
                 return "finalise: " + msg
         if (li.onfirst, li.onlast, li.spot3d_id) != (final["onfirst"], final["onlast"], final["spot"]):
@@ -276,7 +582,7 @@ def route_labelimage(R, case, steps, final, mout, path=None, dtype=np.float64, c
             text = open(path).read()
         else:
             text = out.getvalue()
-        msg = check_text(R, text, mout)
+        msg = check_text(R, text, mout, flip if flip is not None else 2, affine)
         if msg:
             return msg
         if collect is not None:
@@ -294,7 +600,7 @@ def route_kernels(R, case, steps, final, mout, collect=None):
     """bare kernels connectedpixels / blobproperties / bloboverlaps / blob_moments, orchestrated by the
     harness the way the model says; compared after every kernel call."""
     c = R.c
-    omega = omega_fn(case["om0"], case["omstep"])
+    ctx = Ctx(case)
     ns, nf = case["ns"], case["nf"]
     blim = np.zeros((ns, nf), np.int32)
     lastbl = np.zeros((ns, nf), np.int32)
@@ -303,8 +609,8 @@ def route_kernels(R, case, steps, final, mout, collect=None):
     for k, (es, eo, ei) in enumerate(steps):
         d = _frame_array(case, k, np.float32)
         npk = c.connectedpixels(d, blim, case["thr"], 0)
-        res = c.blobproperties(d, blim, npk, omega=float(omega(k + 1))) if npk > 0 else None
-        msg = _cmp_state(R, "kernels frame %d after connectedpixels+blobproperties" % k, npk, blim, res, es)
+        res = c.blobproperties(d, blim, npk, omega=api_omega(case, k)) if npk > 0 else None
+        msg = _cmp_state(R, "kernels frame %d after connectedpixels+blobproperties" % k, npk, blim, res, es, ctx=ctx)
         if msg:
             return msg
         if res is not None and res.shape != (npk, R.nprop):
@@ -319,7 +625,8 @@ def route_kernels(R, case, steps, final, mout, collect=None):
                 before = lastbl.copy()
                 ret = c.bloboverlaps(lastbl, lastnp, lastres, blim, npk, res, 0)
                 what = "kernels frame %d after bloboverlaps" % k
-                msg = _cmp_state(R, what, ret, blim, res, eo) or _cmp_last(R, what, lastnp, lastbl, lastres, eo)
+                msg = _cmp_state(R, what, ret, blim, res, eo, ctx=ctx) or \
+                    _cmp_last(R, what, lastnp, lastbl, lastres, eo, ctx=ctx)
                 if msg:
                     return msg
                 if not np.array_equal(before, lastbl):
@@ -332,7 +639,7 @@ def route_kernels(R, case, steps, final, mout, collect=None):
                 npk = ret
             if lastnp > 0:
                 c.blob_moments(lastres[:lastnp])
-                msg = check_moments(R, lastres, eo["lastres_exact"])
+                msg = check_moments(R, lastres, eo["lastres_exact"], ctx)
                 if msg:
                     return "kernels frame %d: %s" % (k, msg)
                 for r in lastres[:lastnp]:
@@ -342,19 +649,20 @@ def route_kernels(R, case, steps, final, mout, collect=None):
             lastres = res[:npk] if npk > 0 else None
             lastbl, blim = blim, lastbl
         what = "kernels frame %d after merge" % k
-        msg = _cmp_last(R, what, lastnp, lastbl, lastres, ei)
+        msg = _cmp_last(R, what, lastnp, lastbl, lastres, ei, ctx=ctx)
         if msg:
             return msg
     if lastres is not None:
         c.blob_moments(lastres)
-        msg = check_moments(R, lastres, steps[-1][2]["lastres_exact"])
+        msg = check_moments(R, lastres, steps[-1][2]["lastres_exact"], ctx)
         if msg:
             return "kernels finalise: " + msg
         for r in lastres:
             if r[c.s_1] >= 0.1:
                 emitted.append(r[R.cols].tolist())
     want = [[float(x) for x in row] for (row, _a, _b, _c) in mout]
-    if emitted != want:
+    if not _rows_same(np.array(emitted, dtype=float).reshape(-1, M.NROW), np.array(want, dtype=float).reshape(-1, M.NROW),
+                      ctx.tol([row for (row, _a, _b, _c) in mout])):
         return "kernels: emitted rows %r, model %r" % (emitted, want)
     if collect is not None:
         collect.extend(emitted)
@@ -369,50 +677,63 @@ class _FakeImage(object):
         self.filename = "synthetic%04d" % k
 
 
-def route_peaksearcher(R, cases):
-    """ImageD11.peaksearcher.peaksearch() with one labelimage per threshold (cases differ only in thr).
+def route_peaksearcher(R, cases, stats=None):
+    """ImageD11.peaksearcher.peaksearch() with one labelimage per threshold (cases differ only in thr):
+    merged peaks (.flt text) and the 2-D peaks / frame records of each .spt stream.
     Returns None or message."""
     from ImageD11 import peaksearcher
     base = cases[0]
-    omega = omega_fn(base["om0"], base["omstep"])
     thresholds = [float(cs["thr"]) for cs in cases]
     outs = dict((t, io.StringIO()) for t in thresholds)
-    labims = dict((t, R.labelimage.labelimage((base["ns"], base["nf"]), fileout=outs[t], sptfile=io.StringIO()))
+    spts = dict((t, io.StringIO()) for t in thresholds)
+    labims = dict((t, R.labelimage.labelimage((base["ns"], base["nf"]), fileout=outs[t], sptfile=spts[t]))
                   for t in thresholds)
     corr = R.blobcorrector.perfect()
+    dtype = np.dtype(base.get("dtype", "uint16"))
     sav = sys.stdout
     sys.stdout = io.StringIO()
     try:
         for k in range(len(base["frames"])):
-            img = _FakeImage(_frame_array(base, k, np.uint16), float(omega(k + 1)), k)
+            img = _FakeImage(_frame_array(base, k, dtype), api_omega(base, k), k)
             peaksearcher.peaksearch(img.filename, img, corr, thresholds, labims)
         for t in thresholds:
             labims[t].finalise()
     finally:
         sys.stdout = sav
     for cs, t in zip(cases, thresholds):
-        _steps, _final, m = model_all(cs)
+        steps, _final, m = model_all(cs)
         msg = check_text(R, outs[t].getvalue(), m.out)
         if msg:
             return "peaksearcher.peaksearch threshold %g: %s" % (t, msg)
+        msg = check_spt(R, spts[t].getvalue(), cs, steps, "peaksearcher.peaksearch threshold %g .spt" % t)
+        if msg:
+            return msg
+        if stats is not None:
+            stats["spt_frames"] = stats.get("spt_frames", 0) + len(steps)
+            stats["spt_peaks"] = stats.get("spt_peaks", 0) + sum(st[0]["npk"] for st in steps)
     return None
 
 
-def route_script(R, shadow, cases, single_thread):
-    """scripts/peaksearch.py on an edf file series written with fabio"""
+def route_script(R, shadow, cases, single_thread, header_omega=True, stats=None):
+    """scripts/peaksearch.py on an edf file series written with fabio: pks_t<thr>.flt and pks_t<thr>.spt.
+    header_omega=False: the files carry no Omega, the angles come from --start / --step (linear cases)"""
     import fabio
     base = cases[0]
-    omega = omega_fn(base["om0"], base["omstep"])
     d = os.path.join(common.scratch(), "series%d" % random.randrange(1 << 30))
     os.makedirs(d)
     n = len(base["frames"])
+    dtype = np.dtype(base.get("dtype", "uint16"))
     for k in range(n):
-        im = fabio.edfimage.edfimage(data=_frame_array(base, k, np.uint16),
-                                     header={"Omega": "%r" % float(omega(k + 1))})
+        hd = {"Omega": "%r" % api_omega(base, k)} if header_omega else {}
+        im = fabio.edfimage.edfimage(data=_frame_array(base, k, dtype), header=hd)
         im.write(os.path.join(d, "syn%04d.edf" % k))
     script = os.path.join(common.REPO, "scripts", "peaksearch.py")
     cmd = [common.PY, script, "-n", os.path.join(d, "syn"), "-f", "0", "-l", str(n - 1), "-o",
            os.path.join(d, "pks.spt"), "-p", "Y"]
+    if not header_omega:
+        if base.get("omegas") is not None:
+            raise common.MachineryError("route_script: --start/--step needs a linear omega sequence")
+        cmd += ["--start=%r" % float(base["om0"]), "--step=%r" % float(base["omstep"])]
     for cs in cases:
         cmd += ["-t", "%g" % cs["thr"]]
     if single_thread:
@@ -428,15 +749,24 @@ def route_script(R, shadow, cases, single_thread):
         if frames_ and ("/ImageD11/" in frames_[-1] or "/scripts/" in frames_[-1]):
             return "scripts/peaksearch.py exited %d inside the package: %s" % (p.returncode, tail[-400:].replace("\n", " | "))
         raise common.MachineryError("scripts/peaksearch.py failed outside the package:\n" + tail)
+    mode = "%s%s" % ("singleThread" if single_thread else "threaded", "" if header_omega else ", --start/--step")
     for cs in cases:
         path = os.path.join(d, "pks_t%d.flt" % int(cs["thr"]))
         if not os.path.exists(path):
             return "scripts/peaksearch.py wrote no %s" % os.path.basename(path)
-        _steps, _final, m = model_all(cs)
+        steps, _final, m = model_all(cs)
         msg = check_text(R, open(path).read(), m.out)
         if msg:
-            return "scripts/peaksearch.py (%s) threshold %g: %s" % (
-                "singleThread" if single_thread else "threaded", cs["thr"], msg)
+            return "scripts/peaksearch.py (%s) threshold %g: %s" % (mode, cs["thr"], msg)
+        spath = os.path.join(d, "pks_t%d.spt" % int(cs["thr"]))
+        if not os.path.exists(spath):
+            return "scripts/peaksearch.py wrote no %s" % os.path.basename(spath)
+        msg = check_spt(R, open(spath).read(), cs, steps,
+                        "scripts/peaksearch.py (%s) threshold %g .spt" % (mode, cs["thr"]))
+        if msg:
+            return msg
+        if stats is not None:
+            stats["script_spt_frames"] = stats.get("script_spt_frames", 0) + len(steps)
     return None
 
 
@@ -459,13 +789,15 @@ def route_columnfile(R, path, mout):
     return None
 
 
-def property_judge(case, rows):
-    """the property itself on the REAL output, by an independent 3-D flood fill"""
-    omega = omega_fn(case["om0"], case["omstep"])
+def property_judge(case, rows, asis=None):
+    """the property itself on the REAL output, by an independent 3-D flood fill over the frames as the
+    kernels see them (float32).  asis: see M.judge_against_components (default: the case's flag)"""
     ex = []
     for r in rows:
         ex.append([int(x) if float(x).is_integer() else Fraction(x) for x in r])
-    return M.judge_against_components(ex, case["frames"], case["ns"], case["nf"], case["thr"], omega)
+    return M.judge_against_components(ex, model_frames(case), case["ns"], case["nf"], model_thr(case), omega_of(case),
+                                      approx=bool(case.get("approx")),
+                                      asis=bool(case.get("asis")) if asis is None else asis)
 
 
 # ======================================================================================
@@ -516,8 +848,59 @@ def replay_behaviour(R, chk, case, steps, final, m, routes=("labelimage", "kerne
     return bad
 
 
-def report(chk, case, bad):
+def classify_column_finding(R, chk, case, what):
+    """known finding C12-one-column-image-labels: structural match = the image is one pixel wide
+    (nf = 1, ns >= 3), some frame's labels differ from the 8-connected components, and they ARE the
+    components of the adjacency the scan of connectedpixels really applies there: for nf = 1 the pixel of
+    row i is handled a second time as 'last pixel of the row', where labels[irp - 1] is the pixel of row
+    i - 2 (connectedpixels.c, 'Last pixel on the row'), so blobs separated by a one pixel gap are joined."""
+    if not (case["nf"] == 1 and case["ns"] >= 3 and chk.finding(FINDING_COL)):
+        return False
+    thr = model_thr(case)
+    explained = 0
+
+    def same_partition(a, b):
+        return len(set(zip(a, b))) == len(set(a)) == len(set(b)) and all((x == 0) == (y == 0) for x, y in zip(a, b))
+    for k, f in enumerate(model_frames(case)):
+        d = _frame_array(case, k, np.float32)
+        lab = np.zeros((case["ns"], 1), np.int32)
+        npk = R.c.connectedpixels(d, lab, case["thr"], 0)
+        lab = lab.ravel().tolist()
+        good, ngood = M.label2d(f, case["ns"], 1, thr)
+        # what that scan computes: classes of "row i touches rows i-1 and i-2"; one label is made and never
+        # used for every above-threshold row i >= 1 whose row i-1 is not above threshold
+        skip, n, wasted = [0] * len(f), 0, 0
+        for i, v in enumerate(f):
+            if v > thr:
+                prev = [skip[q] for q in (i - 1, i - 2) if q >= 0 and skip[q]]
+                if i >= 1 and not skip[i - 1]:
+                    wasted += 1
+                if prev:
+                    lo, hi = min(prev), max(prev)
+                    skip = [lo if x == hi else x for x in skip]
+                    skip[i] = lo
+                else:
+                    n += 1
+                    skip[i] = n
+        nclass = len(set(skip) - {0})
+        if not (same_partition(lab, skip) and int(npk) == nclass + wasted):
+            return False
+        if lab != good or int(npk) != ngood:
+            explained += 1
+    if not explained:
+        return False
+    chk.known_finding(FINDING_COL, what)
+    return True
+
+
+def report(chk, case, bad, R=None):
     for route, msg in bad[:1]:
+        if R is not None and route.endswith("/property") and float(case["thr"]) < 0:
+            if classify_max_finding(chk, case, _real_rows(R, case), "%s: %s" % (route, msg)):
+                continue
+        if R is not None and case["nf"] == 1 and ("after peaksearch" in msg or "after connectedpixels" in msg):
+            if classify_column_finding(R, chk, case, "%s: %s" % (route, msg)):
+                continue
         chk.violation("%s: %s" % (route, msg), {"case": case, "route": route})
 
 
@@ -554,9 +937,23 @@ def _parse_printed(res):
     return recs, skipped
 
 
-def handle_tlc_violation(R, chk, name, res):
-    """a TLC invariant violation is a design-level counterexample: replay it before reporting"""
-    ns, nf, thr, om0, omstep = CFG[name]
+def _real_rows(R, case):
+    """the rows the real labelimage emits for a case (no comparison with the model)"""
+    li = R.labelimage.labelimage((case["ns"], case["nf"]), fileout=io.StringIO(), sptfile=io.StringIO())
+    rows = []
+    orig = li.outputpeaks
+    li.outputpeaks = lambda p: (rows.extend(r[R.cols].tolist() for r in p if r[R.c.s_1] >= 0.1), orig(p))[1]
+    for k in range(len(case["frames"])):
+        li.peaksearch(_frame_array(case, k, _dtype_of(case, None)), case["thr"], api_omega(case, k))
+        li.mergelast()
+    li.finalise()
+    return rows
+
+
+def handle_tlc_violation(R, chk, name, res, tolerate_unconfirmed=False):
+    """a TLC invariant violation is a design-level counterexample: replay it before reporting.
+    Returns True when the real code confirms it (reported as violation / known finding), False when it
+    does not and tolerate_unconfirmed (else that is an error of the model)."""
     frames = None
     for st in reversed(res.trace):
         if "frames" in st.get("vars", {}):
@@ -564,31 +961,37 @@ def handle_tlc_violation(R, chk, name, res):
             break
     if not frames:
         raise common.MachineryError("TLC %s violated %r but the trace has no frames" % (name, res.violated))
-    case = make_case(ns, nf, thr, om0, omstep, frames, "TLC counterexample %s %r" % (name, res.violated))
-    out = io.StringIO()
-    omega = omega_fn(om0, omstep)
-    li = R.labelimage.labelimage((ns, nf), fileout=out, sptfile=io.StringIO())
-    rows = []
-    orig = li.outputpeaks
-    li.outputpeaks = lambda p: (rows.extend(r[R.cols].tolist() for r in p if r[R.c.s_1] >= 0.1), orig(p))[1]
-    for k in range(len(frames)):
-        li.peaksearch(_frame_array(case, k, np.float64), thr, float(omega(k + 1)))
-        li.mergelast()
-    li.finalise()
-    j = property_judge(case, rows)
+    case = cfg_case(name, frames, "TLC counterexample %s %r" % (name, res.violated))
+    rows = _real_rows(R, case)
+    j = property_judge(case, rows, asis=False)
     if j:
-        chk.violation("TLC counterexample (%s) confirmed on the real code: %s" % (",".join(res.violated), j),
-                      {"case": case, "route": "labelimage/property"})
-    else:
-        raise common.MachineryError("TLC %s: invariant %r violated by the model, but the real code satisfies the "
-                                    "property on that frame sequence - the model is wrong:\n%s"
-                                    % (name, res.violated, res.stdout[-3000:]))
+        what = "TLC counterexample (%s) confirmed on the real code: %s" % (",".join(res.violated), j)
+        if not classify_max_finding(chk, case, rows, what):
+            chk.violation(what, {"case": case, "route": "labelimage/property"})
+        return True
+    if tolerate_unconfirmed:
+        return False
+    raise common.MachineryError("TLC %s: invariant %r violated by the model, but the real code satisfies the "
+                                "property on that frame sequence - the model is wrong:\n%s"
+                                % (name, res.violated, res.stdout[-3000:]))
+
+
+def classify_max_finding(chk, case, rows, what):
+    """known finding C12-max-pixel-nonpositive-blob: structural match = negative threshold, the strict
+    judgement fails, and the judgement that differs only in the max-pixel clause of components whose
+    maximum is <= 0 (what Merge3D.tla with MAXFIX = FALSE predicts: mx_I = 0 at (0,0,0)) passes."""
+    if not (float(case["thr"]) < 0 and chk.finding(FINDING_MAX)):
+        return False
+    if property_judge(case, rows, asis=False) is None or property_judge(case, rows, asis=True) is not None:
+        return False
+    chk.known_finding(FINDING_MAX, what)
+    return True
 
 
 def crosscheck_steps(recs, name):
     """every observable state printed by EmitStep must be what the transcription computes"""
-    ns, nf, thr, om0, omstep = CFG[name]
-    omega = omega_fn(om0, omstep)
+    g = CFG[name]
+    ns, nf, thr, omega = g["ns"], g["nf"], g["thr"], cfg_omega(name)
     exp = {}
     for d in recs:
         if "npk" in d:
@@ -598,7 +1001,7 @@ def crosscheck_steps(recs, name):
     for (frs, pc), d in sorted(exp.items(), key=lambda kv: (kv[0][0], kv[0][1])):
         if pc != "done":
             continue
-        m = M.Model(ns, nf, thr, omega)
+        m = M.Model(ns, nf, thr, omega, maxfix=g["maxfix"])
         for k, f in enumerate(frs):
             pre = frs[:k + 1]
             m.peaksearch(f)
@@ -629,8 +1032,8 @@ def crosscheck_steps(recs, name):
 
 def crosscheck_traces(files, name, limit):
     """every variable of every state of simulated behaviours == transcription"""
-    ns, nf, thr, om0, omstep = CFG[name]
-    omega = omega_fn(om0, omstep)
+    g = CFG[name]
+    ns, nf, thr, omega = g["ns"], g["nf"], g["thr"], cfg_omega(name)
     nstates, behaviours, acts = 0, [], {}
     rename = {"PeaksearchPending": "Peaksearch", None: "Init", "FinaliseFull": "Finalise"}
     for f in files[:limit]:
@@ -697,6 +1100,152 @@ def random_case(rng, idx):
     return make_case(ns, nf, thr, om0, omstep, frames, "random %d" % idx)
 
 
+def _random_frames(rng, ns, nf, nfr, dens=None, nblob=None):
+    """integer frames 0..14 like random_case's: background speckle + drifting gaussian-ish blobs"""
+    dens = rng.choice([0.03, 0.08, 0.15, 0.3]) if dens is None else dens
+    nblob = rng.randrange(0, 6) if nblob is None else nblob
+    blobs = [[rng.uniform(0, ns), rng.uniform(0, nf), rng.uniform(-0.7, 0.7), rng.uniform(-0.7, 0.7),
+              rng.randrange(0, nfr), rng.randrange(1, 12), rng.uniform(0.8, 2.5)] for _ in range(nblob)]
+    frames = []
+    for k in range(nfr):
+        if rng.random() < 0.08:
+            frames.append([0] * (ns * nf))
+            continue
+        img = [rng.randrange(1, 10) if rng.random() < dens else 0 for _ in range(ns * nf)]
+        for b in blobs:
+            if b[4] <= k < b[4] + b[5]:
+                cs, cf = b[0] + b[2] * (k - b[4]), b[1] + b[3] * (k - b[4])
+                r = int(b[6]) + 1
+                for s in range(max(0, int(cs) - r), min(ns, int(cs) + r + 2)):
+                    for f in range(max(0, int(cf) - r), min(nf, int(cf) + r + 2)):
+                        d2 = (s - cs) ** 2 + (f - cf) ** 2
+                        if d2 < b[6] ** 2:
+                            img[s * nf + f] = max(img[s * nf + f], 5 + int(9 - 3 * d2))
+        frames.append(img)
+    if nfr >= 2:                 # at least one peak that persists over two frames (vacuity of the family counts)
+        k0, p = rng.randrange(nfr - 1), rng.randrange(ns * nf)
+        frames[k0][p] = max(frames[k0][p], 9)
+        frames[k0 + 1][p] = max(frames[k0 + 1][p], 8)
+    return frames
+
+
+BIG = [(1 << 24) + 1, (1 << 24) + 3, (1 << 27) + 5, (1 << 30) + 65, (1 << 31) - 129, 33554435]
+
+
+def value_cases(rng):
+    """pixel value classes beyond the model's small integers (the model is covariant in the intensity
+    scale: it only compares intensities with THR / each other and adds products).  The expectation is the
+    same transcription / flood fill run on the float32-rounded frames with exact rational arithmetic."""
+    out = []
+    shapes = [(16, 16), (8, 16), (5, 7), (12, 3)]
+
+    def base(k):
+        ns, nf = shapes[k % len(shapes)]
+        nfr = rng.choice([2, 3, 5, 8, 13])
+        return ns, nf, nfr, _random_frames(rng, ns, nf, nfr)
+    for k in range(3):          # uint16 up to 65535 (14 * 4681 = 65534)
+        ns, nf, nfr, fr = base(k)
+        fr = [[v * 4681 for v in f] for f in fr]
+        for _ in range(3):
+            f = rng.choice(fr)
+            f[rng.randrange(len(f))] = 65535
+        out.append(make_case(ns, nf, [0, 9362, 30000.5][k], 0, 1, fr, "values uint16 x4681 #%d" % k,
+                             dtype="uint16", family="values:uint16<=65535"))
+    for k in range(3):          # int32 up to 2^20
+        ns, nf, nfr, fr = base(k + 1)
+        fr = [[v * 74898 for v in f] for f in fr]
+        out.append(make_case(ns, nf, [0, 149796, 500000.5][k], 10, 0.25, fr, "values int32 x74898 #%d" % k,
+                             dtype="int32", family="values:int32<=2^20"))
+    for k in range(4):          # float32 fractions k/8
+        ns, nf, nfr, fr = base(k + 2)
+        fr = [[(v * 0.875 + 0.125) if v else 0 for v in f] for f in fr]
+        out.append(make_case(ns, nf, [0, 0.3, 2.75, 1.0][k], -3, -0.5, fr, "values float32 k/8 #%d" % k,
+                             dtype="float32", family="values:float32 k/8"))
+    for k in range(3):          # a few int32 values that float32 cannot hold exactly
+        ns, nf, nfr, fr = base(k)
+        for _ in range(6):
+            f = rng.choice(fr)
+            nz = [p for p, v in enumerate(f) if v]
+            if nz:
+                f[rng.choice(nz)] = rng.choice(BIG)
+        out.append(make_case(ns, nf, [0, 1, 2.5][k], 0, 1, fr, "values int32 > 2^24 #%d" % k,
+                             dtype="int32", approx=True, family="values:int32>2^24 (rounded to float32)"))
+    for k in range(4):          # negative background below the threshold
+        ns, nf, nfr, fr = base(k + 3)
+        fr = [[v if v else (-rng.randrange(1, 10) if rng.random() < 0.5 else 0) for v in f] for f in fr]
+        out.append(make_case(ns, nf, [0, 1, 2.5, 0][k], 1.5, 0.125, fr, "negative background #%d" % k,
+                             dtype=["int32", "float32", "float64", "int16"][k],
+                             family="values:negative pixels below threshold"))
+    for k in range(3):          # negative threshold on strictly positive data: one component holds everything
+        ns, nf = [(5, 7), (3, 4), (1, 9)][k]
+        fr = [[v + 1 for v in f] for f in _random_frames(rng, ns, nf, 3)]
+        out.append(make_case(ns, nf, [-1, -0.5, -2.5][k], 0, 1, fr, "negative threshold, positive data #%d" % k,
+                             dtype="float32", family="threshold<0 on positive data"))
+    return out
+
+
+def shape_cases(rng):
+    out = []
+    for k, (ns, nf) in enumerate([(33, 20), (20, 33), (40, 1), (1, 40), (3, 37), (37, 3)]):
+        nfr = rng.choice([3, 5, 8])
+        out.append(make_case(ns, nf, [0, 1, 2.5][k % 3], 100, 2, _random_frames(rng, ns, nf, nfr),
+                             "shape %dx%d" % (ns, nf), family="shape:tall/wide/column/row > 16"))
+    return out
+
+
+def big_shape_cases(rng):
+    """detector-sized sides: coordinates up to 2047 in the second moment sums, the nf+1 / ns+1 bounding
+    box sentinels, blobs touching the far edges and corners"""
+    out = []
+    for ns, nf in [(64, 2048), (2048, 64)]:
+        frames = []
+        spots = [(ns - 1, nf - 1), (0, nf - 1), (ns - 1, 0), (ns // 2, nf - 2), (ns - 2, nf // 2)]
+        spots += [(rng.randrange(ns), rng.randrange(nf)) for _ in range(6)]
+        for k in range(3):
+            img = np.zeros((ns, nf), np.int64)
+            for n, (s0, f0) in enumerate(spots):
+                if (n + k) % 4 == 3:
+                    continue                      # blobs come and go
+                for ds in range(-2, 3):
+                    for df in range(-2, 3):
+                        s1, f1 = s0 + ds + (k if n % 2 else 0), f0 + df
+                        if 0 <= s1 < ns and 0 <= f1 < nf and ds * ds + df * df <= 4 + n % 3:
+                            img[s1, f1] = max(img[s1, f1], 1000 + 37 * n - 100 * (ds * ds + df * df) + k)
+            frames.append(img.ravel().tolist())
+        out.append(make_case(ns, nf, 5, 0, 0.25, frames, "shape %dx%d sparse" % (ns, nf), dtype="uint16",
+                             family="shape:2048 pixel side"))
+    return out
+
+
+def omega_cases(rng):
+    """omega sequences: zero step, non-monotonic, revisited, and steps float32 cannot hold (the f2py
+    wrapper narrows `real omega`: the expectation narrows too; the omega sums are then compared within
+    the rounding-error bound of a double accumulation, everything else exactly)"""
+    out = []
+    n = 0
+
+    def add(origin, fam, **kw):
+        ns, nf = [(16, 16), (5, 7), (8, 16), (12, 3)][len(out) % 4]
+        nfr = rng.choice([4, 6, 9, 14])
+        om = kw.pop("omegas", None)
+        if callable(om):
+            kw["omegas"] = [om(k) for k in range(nfr)]
+        out.append(make_case(ns, nf, rng.choice([0, 1, 2.5]), kw.pop("om0", 0), kw.pop("omstep", 1),
+                             _random_frames(rng, ns, nf, nfr), origin, family=fam, **kw))
+    add("omega step 0", "omega:zero step", om0=5, omstep=0)
+    add("omega step 0 (negative angle)", "omega:zero step", om0=-7.5, omstep=0)
+    add("omega 0,2,1,3,2,4,..", "omega:non-monotonic", omegas=lambda k: k + (1 if k % 2 else 0))
+    add("omega 0,1,0,1,..", "omega:non-monotonic", omegas=lambda k: k % 2)
+    add("omega 3,-1,2,-2,..", "omega:non-monotonic", omegas=lambda k: (3 - k // 2) if k % 2 == 0 else -(1 + k // 2))
+    add("omega 0.1 steps", "omega:not float32-representable", omegas=lambda k: 0.1 * k, approx=True)
+    add("omega 359.9 - 0.3 k", "omega:not float32-representable", omegas=lambda k: 359.9 - 0.3 * k, approx=True)
+    add("omega -10 + k/3", "omega:not float32-representable", omegas=lambda k: -10 + k / 3.0, approx=True)
+    add("omega 0.05 steps, uint16 65535", "omega:not float32-representable", omegas=lambda k: 12.345 + 0.05 * k,
+        approx=True)
+    out[-1]["frames"] = [[v * 4681 for v in f] for f in out[-1]["frames"]]
+    return out
+
+
 def handmade_cases():
     """the situations named in the property statement, by hand"""
     cs = []
@@ -721,8 +1270,8 @@ def handmade_cases():
 
 def _replay_set(R, chk, name, behaviours, tlc_out, routes, stats, file_every=0, limit_fail=30, kernels_every=1):
     """behaviours: list of frame lists (tuples).  tlc_out: dict frames -> out from TLC (or None)."""
-    ns, nf, thr, om0, omstep = CFG[name]
-    cache = StepCache(ns, nf, thr, omega_fn(om0, omstep))
+    g = CFG[name]
+    cache = StepCache(g["ns"], g["nf"], g["thr"], cfg_omega(name), maxfix=g["maxfix"])
     nfail = 0
     behaviours = sorted(behaviours)
     for n, frs in enumerate(behaviours):
@@ -735,7 +1284,7 @@ def _replay_set(R, chk, name, behaviours, tlc_out, routes, stats, file_every=0, 
                                             % (name, frs, got, want))
         if m.bad:
             raise common.MachineryError("model run-time check %r failed for %r" % (m.bad, frs))
-        case = make_case(ns, nf, thr, om0, omstep, frs, "TLC %s" % name)
+        case = cfg_case(name, frs, "TLC %s" % name)
         path = None
         if file_every and n % file_every == 0:
             path = os.path.join(common.scratch(), "merged_%s.flt" % name)
@@ -747,7 +1296,7 @@ def _replay_set(R, chk, name, behaviours, tlc_out, routes, stats, file_every=0, 
             chk.sample({"scope": name, "frames": [list(f) for f in frs],
                         "emitted (s_1..bb_mn_o, onfirst, onlast, id)": [[list(r), a, b, c] for (r, a, b, c) in m.out]})
         if bad:
-            report(chk, case, bad)
+            report(chk, case, bad, R)
             nfail += 1
             if nfail >= limit_fail:
                 break
@@ -755,7 +1304,7 @@ def _replay_set(R, chk, name, behaviours, tlc_out, routes, stats, file_every=0, 
 
 
 def _exhaustive(R, chk, name, tier, stats, coverage, steps, routes=("labelimage", "kernels"), file_every=0,
-                timeout=1500, kernels_every=1):
+                timeout=1500, kernels_every=1, bind=True):
     res = _tlc(chk, name, tier, coverage=coverage, timeout=timeout)
     if res.violated:
         handle_tlc_violation(R, chk, name, res)
@@ -774,8 +1323,35 @@ def _exhaustive(R, chk, name, tier, stats, coverage, steps, routes=("labelimage"
             tlc_out[tuple(map(tuple, d["fr"]))] = d["out"]
     if not tlc_out:
         raise common.MachineryError("TLC %s emitted no behaviour" % name)
+    if not bind:            # design-level run only (the tree follows another constant set)
+        return
     _replay_set(R, chk, name, list(tlc_out), tlc_out, routes, stats, file_every=file_every,
                 kernels_every=kernels_every)
+
+
+def _negative_threshold(R, chk, tier, stats):
+    """1x3 (quick: 1x2) x 2 frames over -2..1 at threshold -2 (blobs made of -1, 0, 1).  The model with the max-pixel
+    rule of the pinned code (MAXFIX = FALSE) violates the property there (a blob without a positive pixel
+    keeps mx_I = 0 at (0,0,0)): TLC's counterexample is replayed on the real code.  Confirmed -> violation
+    (or the known finding), and every behaviour of the scope is bound to that model, the rest of the
+    property judged (negthr_asis).  Not confirmed -> the tree must follow the repaired rule: every
+    behaviour is bound to the MAXFIX = TRUE model with the full property (negthr_fix)."""
+    q = "_q" if tier == "quick" else ""
+    res = _tlc(chk, "negthr" + q, tier, timeout=600)
+    if not res.violated:
+        raise common.MachineryError("TLC negthr: the MAXFIX = FALSE model is expected to violate DoneOK / PrefixOK")
+    confirmed = handle_tlc_violation(R, chk, "negthr" + q, res, tolerate_unconfirmed=True)
+    chk.traces += 1
+    if confirmed:
+        chk.notes["negative_threshold_scope"] = ("TLC counterexample of the strict property confirmed on the real "
+                                                 "code; all behaviours of the scope bound to the MAXFIX=FALSE model")
+        _exhaustive(R, chk, "negthr_asis" + q, tier, stats, coverage=False, steps=True, file_every=200, timeout=600)
+    else:
+        chk.notes["negative_threshold_scope"] = ("the real code satisfies the property on TLC's counterexample for "
+                                                 "the pinned rule; all behaviours of the scope bound to the MAXFIX=TRUE model")
+    if not confirmed or tier == "thorough":
+        _exhaustive(R, chk, "negthr_fix" + q, tier, stats, coverage=False, steps=True, file_every=200, timeout=600,
+                    bind=not confirmed)
 
 
 def _simulated(R, chk, name, tier, stats, num, ntraces):
@@ -800,9 +1376,12 @@ def _simulated(R, chk, name, tier, stats, num, ntraces):
 
 
 def _random_series(R, chk, shadow, tier, stats, count, nscript):
+    import collections
     rng = random.Random(common.seed() * 7919 + 12)
     cases = handmade_cases() + [random_case(rng, k) for k in range(count)]
     nfail = 0
+    fam = collections.Counter()
+    rstat = {}
     for n, case in enumerate(cases):
         steps, final, m = model_all(case)
         if m.bad:
@@ -811,6 +1390,7 @@ def _random_series(R, chk, shadow, tier, stats, count, nscript):
                                        case["thr"], omega_fn(case["om0"], case["omstep"]))
         if j:
             raise common.MachineryError("transcription violates the property on %s: %s" % (case["origin"], j))
+        fam["model series (16x16 and smaller, small integers, dyadic omega)"] += 1
         path = os.path.join(common.scratch(), "merged_random.flt")
         bad = replay_behaviour(R, chk, case, steps, final, m, path=path, stats=stats)
         # other input dtypes reach the same float32 conversion
@@ -820,13 +1400,32 @@ def _random_series(R, chk, shadow, tier, stats, count, nscript):
                 bad.append(("labelimage(dtype)", msg))
         if not bad and n % 2 == 0:
             others = [dict(case, thr=t) for t in (0, 2, 5) if t != case["thr"]][:2]
-            msg = guarded(route_peaksearcher, R, [case] + others)
+            msg = guarded(route_peaksearcher, R, [case] + others, stats=rstat)
             if msg:
                 bad.append(("peaksearcher", msg))
+            fam["route:peaksearcher.peaksearch, .flt and .spt streams judged"] += 1
+        if not bad and n % 4 == 1:
+            msg = guarded(route_labelimage, R, case, steps, final, m.out, with2d=True, stats=rstat)
+            if msg:
+                bad.append(("labelimage(output2dpeaks before mergelast)", msg))
+            fam["route:labelimage with output2dpeaks before mergelast"] += 1
+        if not bad and n % 4 == 3:
+            msg = guarded(route_labelimage, R, case, steps, final, m.out, measure=True)
+            if msg:
+                bad.append(("labelimage(measurepeaks(blim=own labels))", msg))
+            fam["route:measurepeaks(blim=labels made by the caller)"] += 1
+        if not bad and n % 3 == 1:
+            fl = 1 + (n // 3) % 8
+            msg = guarded(route_labelimage, R, case, steps, final, m.out, flip=fl, affine=(n % 2 == 0))
+            if msg:
+                bad.append(("labelimage(flip%d%s)" % (fl, ", affine spatial" if n % 2 == 0 else ""), msg))
+            fam["columns:flip%d" % fl] += 1
+            if n % 2 == 0:
+                fam["columns:sc/fc through a non-trivial corrector"] += 1
         chk.traces += 1
         chk.case(("random", n, len(case["frames"])), nontrivial=m.actions.get("MergeAcross", 0) > 0)
         if bad:
-            report(chk, case, bad)
+            report(chk, case, bad, R)
             nfail += 1
             if nfail > 10:
                 break
@@ -847,11 +1446,151 @@ def _random_series(R, chk, shadow, tier, stats, count, nscript):
     for k in range(nscript):
         case = pool[k % len(pool)]
         others = [dict(case, thr=t) for t in (0, 3) if t != case["thr"]][:1]
-        msg = route_script(R, shadow, [case] + others, single_thread=(k % 2 == 0))
+        # even: --singleThread, Omega from the file headers; odd: the threaded pipeline (reader, corrector,
+        # one searcher per threshold), no Omega in the headers: --start / --step
+        msg = route_script(R, shadow, [case] + others, single_thread=(k % 2 == 0), header_omega=(k % 2 == 0),
+                           stats=rstat)
+        chk.traces += 1
+        fam["route:scripts/peaksearch.py %s, .flt and .spt files judged"
+            % ("--singleThread" if k % 2 == 0 else "threaded, --start/--step")] += 1
+        if msg:
+            report(chk, dict(case, script=("single" if k % 2 == 0 else "threaded")), [("script", msg)])
+    for k, v in fam.items():
+        chk.notes.setdefault("families", {})[k] = chk.notes.get("families", {}).get(k, 0) + v
+    for k, v in rstat.items():
+        chk.notes.setdefault("two_d_output", {})[k] = v
+    return len(cases)
+
+
+def _extended_series(R, chk, shadow, tier, stats):
+    """instance families outside the model's constants, justified by covariance (header of Merge3D.tla):
+    judged by the transcription on exact rationals + the independent flood fill"""
+    import collections
+    rng = random.Random(common.seed() * 104729 + 12)
+    reps = 1 if tier == "quick" else 4
+    cases = []
+    for _ in range(reps):
+        cases += value_cases(rng) + shape_cases(rng) + omega_cases(rng)
+    cases += big_shape_cases(rng)
+    fam = collections.Counter()
+    nontriv = collections.Counter()
+    rstat = {}
+    nfail = 0
+    for n, case in enumerate(cases):
+        steps, final, m = model_all(case)
+        if m.bad:
+            raise common.MachineryError("model run-time check %r failed for %s" % (m.bad, case["origin"]))
+        j = property_judge(case, [[float(x) for x in r] for (r, _a, _b, _c) in m.out]) if case.get("approx") else \
+            M.judge_against_components([r for (r, _a, _b, _c) in m.out], model_frames(case), case["ns"], case["nf"],
+                                       model_thr(case), omega_of(case))
+        if j:
+            raise common.MachineryError("transcription violates the property on %s: %s" % (case["origin"], j))
+        big = case["ns"] * case["nf"] > 4096
+        path = os.path.join(common.scratch(), "merged_ext.flt") if n % 3 == 0 else None
+        bad = replay_behaviour(R, chk, case, steps, final, m, path=path, stats=stats)
+        if not bad and not big and n % 2 == 0 and case.get("dtype", "uint16") != "float64":
+            others = [dict(case, thr=t) for t in (0, 2.5) if t != case["thr"]][:1] if float(case["thr"]) >= 0 else []
+            msg = guarded(route_peaksearcher, R, [case] + others, stats=rstat)
+            if msg:
+                bad.append(("peaksearcher", msg))
+        if not bad and not big and n % 2 == 1:
+            fl = 1 + (n // 2) % 8
+            msg = guarded(route_labelimage, R, case, steps, final, m.out, with2d=True, flip=fl, affine=(n % 4 == 1),
+                          measure=(n % 4 == 3), stats=rstat)
+            if msg:
+                bad.append(("labelimage(output2dpeaks, flip%d)" % fl, msg))
+        fam[case["family"]] += 1
+        if m.actions.get("MergeAcross", 0) > 0:
+            nontriv[case["family"]] += 1
+        chk.traces += 1
+        chk.case(("extended", case["origin"], n), nontrivial=m.actions.get("MergeAcross", 0) > 0)
+        if bad:
+            report(chk, case, bad, R)
+            nfail += 1
+            if nfail > 10:
+                break
+    # the command line script on float32 fractions written as edf (the uint16 series is in _random_series)
+    pool = [c for c in cases if c["family"] == "values:float32 k/8" and float(c["thr"]).is_integer()
+            and len(c["frames"]) >= 2]
+    if pool and tier != "quick":
+        msg = route_script(R, shadow, [pool[0]], single_thread=True, stats=rstat)
         chk.traces += 1
         if msg:
-            report(chk, case, [("script", msg)])
+            report(chk, dict(pool[0], script="single"), [("script", msg)])
+    for k, v in fam.items():
+        chk.notes.setdefault("families", {})[k] = "%d cases, %d with a merge across frames" % (v, nontriv[k])
+        if nontriv[k] == 0 and not k.startswith("threshold<0"):
+            raise common.MachineryError("vacuity: family %r has no case with a merge across frames" % k)
+    for k, v in rstat.items():
+        chk.notes.setdefault("two_d_output", {})["extended " + k] = v
     return len(cases)
+
+
+def observe_histories(R, chk):
+    """call orders the property does not speak about (labelimage has no reset and does not document
+    them): recorded in the evidence, never judged"""
+    rng = random.Random(common.seed() * 31 + 5)
+    cases = handmade_cases()[:3] + [random_case(rng, k) for k in range(3)]
+
+    def nrows(out):
+        return len([l for l in out.getvalue().splitlines() if l.strip() and not l.startswith("#")])
+
+    def drive(li, m, case, skip_merge=()):
+        for k in range(len(case["frames"])):
+            li.peaksearch(_frame_array(case, k, np.float32), case["thr"], api_omega(case, k))
+            if k not in skip_merge:
+                li.mergelast()
+            if m is not None:
+                m.peaksearch(case["frames"][k])
+                m.mergelast()
+    twice = {"cases": 0, "rows of the series": 0, "rows written again by the second finalise()": 0,
+             "file == transcription (finalise re-emits the unchanged lastres with new spot3d_id)": 0}
+    reuse = {"cases": 0, "rows of series A + rows of series A again, fresh objects": 0,
+             "rows when the finalised object searches the series again": 0,
+             "number of rows == transcription carrying on (open peaks of A are merged into B and written again)": 0}
+    skip = {"cases": 0, "file == series without the overwritten frame (its neighbours merge across the gap)": 0}
+    for case in cases:
+        n = len(case["frames"])
+        for second in ("finalise", "series"):
+            out = io.StringIO()
+            li = R.labelimage.labelimage((case["ns"], case["nf"]), fileout=out, sptfile=io.StringIO())
+            m = new_model(case)
+            drive(li, m, case)
+            li.finalise()
+            m.finalise()
+            n1 = nrows(out)
+            if second == "finalise":
+                li.finalise()
+                m.finalise(again=True)
+                twice["cases"] += 1
+                twice["rows of the series"] += n1
+                twice["rows written again by the second finalise()"] += nrows(out) - n1
+                twice["file == transcription (finalise re-emits the unchanged lastres with new spot3d_id)"] += int(
+                    check_text(R, out.getvalue(), m.out) is None)
+            else:
+                m.reopen()
+                drive(li, m, case)
+                li.finalise()
+                m.finalise()
+                reuse["cases"] += 1
+                reuse["rows of series A + rows of series A again, fresh objects"] += 2 * n1
+                reuse["rows when the finalised object searches the series again"] += nrows(out)
+                reuse["number of rows == transcription carrying on (open peaks of A are merged into B and written again)"] += int(
+                    nrows(out) == len(m.out))
+        if n >= 3:
+            out = io.StringIO()
+            li = R.labelimage.labelimage((case["ns"], case["nf"]), fileout=out, sptfile=io.StringIO())
+            drive(li, None, case, skip_merge=(1,))
+            li.finalise()
+            c2 = dict(case, frames=[f for k, f in enumerate(case["frames"]) if k != 1],
+                      omegas=[api_omega(case, k) for k in range(n) if k != 1])
+            _s, _f, m2 = model_all(c2)
+            skip["cases"] += 1
+            skip["file == series without the overwritten frame (its neighbours merge across the gap)"] += int(
+                check_text(R, out.getvalue(), m2.out) is None)
+    chk.notes["observations"] = {"finalise() twice (not judged)": twice,
+                                 "object used for a second series after finalise() (not judged)": reuse,
+                                 "peaksearch() twice without mergelast() (not judged)": skip}
 
 
 def run_replay(R, chk, shadow, path):
@@ -862,16 +1601,30 @@ def run_replay(R, chk, shadow, path):
     p = os.path.join(common.scratch(), "merged_replay.flt")
     bad = replay_behaviour(R, chk, case, steps, final, m, path=p)
     if not bad:
+        for kw in ({"with2d": True}, {"measure": True}, {"flip": 1, "affine": True}, {"flip": 3}, {"flip": 4},
+                   {"flip": 5}, {"flip": 6}, {"flip": 7}, {"flip": 8}):
+            msg = guarded(route_labelimage, R, case, steps, final, m.out, **kw)
+            if msg:
+                bad.append(("labelimage(%s)" % ", ".join("%s=%r" % kv for kv in sorted(kw.items())), msg))
+                break
+    if not bad and case.get("dtype", "uint16") != "float64":
         msg = guarded(route_peaksearcher, R, [case])
         if msg:
             bad.append(("peaksearcher", msg))
     if not bad and "script" in obj["case"].get("route", "") and float(case["thr"]).is_integer():
-        msg = route_script(R, shadow, [case], single_thread=True)
+        thr = case.get("script") == "threaded"
+        msg = route_script(R, shadow, [case], single_thread=not thr, header_omega=not thr)
         if msg:
             bad.append(("script", msg))
     chk.traces += 1
     chk.case(("replay", path))
-    if bad:
+    if bad and bad[0][0].endswith("/property") and float(case["thr"]) < 0 and \
+            classify_max_finding(chk, case, _real_rows(R, case), "%s: %s" % bad[0]):
+        print("replay %s: reproduces the known finding %s" % (path, FINDING_MAX))
+    elif bad and case["nf"] == 1 and ("after peaksearch" in bad[0][1] or "after connectedpixels" in bad[0][1]) and \
+            classify_column_finding(R, chk, case, "%s: %s" % bad[0]):
+        print("replay %s: reproduces the known finding %s" % (path, FINDING_COL))
+    elif bad:
         # re-judged against the current tree: report under the replayed file (do not write a new one)
         print("  violation: %s: %s" % bad[0])
         chk.violations.append(("%s: %s" % bad[0], os.path.abspath(path)))
@@ -899,8 +1652,12 @@ def run(tier, replay=None):
             _exhaustive(R, chk, "2x3_f2", tier, stats, coverage=True, steps=True, file_every=50)
             _exhaustive(R, chk, "1x5_f2", tier, stats, coverage=False, steps=True, file_every=50)
             _exhaustive(R, chk, "2x2_thr1_q", tier, stats, coverage=False, steps=True, file_every=100)
+            _exhaustive(R, chk, "1x2_f4_om", tier, stats, coverage=False, steps=True, file_every=50)
+            _negative_threshold(R, chk, tier, stats)
             _simulated(R, chk, "sim_3x3", tier, stats, num=30, ntraces=120)
-            _random_series(R, chk, shadow, tier, stats, count=40, nscript=1)
+            _random_series(R, chk, shadow, tier, stats, count=40, nscript=2)
+            _extended_series(R, chk, shadow, tier, stats)
+            observe_histories(R, chk)
             chk.exhaustive = False
         else:
             _exhaustive(R, chk, "2x3_f2", tier, stats, coverage=True, steps=True, file_every=50)
@@ -911,9 +1668,13 @@ def run(tier, replay=None):
             _exhaustive(R, chk, "1x5_f3", tier, stats, coverage=False, steps=False, file_every=1000)
             _exhaustive(R, chk, "2x3_f3", tier, stats, coverage=False, steps=False, file_every=5000, timeout=2400,
                         kernels_every=4)     # every behaviour through labelimage, every 4th also through the bare kernels
+            _exhaustive(R, chk, "1x3_f4_om", tier, stats, coverage=False, steps=True, file_every=200)
+            _negative_threshold(R, chk, tier, stats)
             _simulated(R, chk, "sim_3x3", tier, stats, num=150, ntraces=400)
             _simulated(R, chk, "sim_4x4", tier, stats, num=100, ntraces=200)
-            _random_series(R, chk, shadow, tier, stats, count=300, nscript=2)
+            _random_series(R, chk, shadow, tier, stats, count=300, nscript=4)
+            _extended_series(R, chk, shadow, tier, stats)
+            observe_histories(R, chk)
             chk.exhaustive = False      # exhaustive on the small scopes, sampled beyond them
             selftest(R)
         for a in LIVE + ["CopyMoved"] + (["CopyCheckEmpty"] if tier == "thorough" else []):
@@ -921,16 +1682,27 @@ def run(tier, replay=None):
                 raise common.MachineryError("vacuity: action %s never exercised by a replayed behaviour" % a)
         chk.notes["actions_in_replayed_behaviours"] = stats
         chk.notes["api_routes"] = ["labelimage.peaksearch/mergelast/finalise + outputpeaks rows + merged file text",
+                                   "labelimage.output2dpeaks between peaksearch and mergelast (2-D peaks judged)",
+                                   "labelimage.measurepeaks(blim=labels made by the caller)",
+                                   "labelimage(flipper=flip1..8, spatial=affine stand-in): dety/detz/sc/fc columns",
                                    "cImageD11.connectedpixels/blobproperties/bloboverlaps/blob_moments",
-                                   "columnfile(merged file)", "peaksearcher.peaksearch (several thresholds)",
-                                   "scripts/peaksearch.py on a fabio edf series"]
-        chk.notes["tolerances"] = "raw sums exact; moments 1e-9 rel + 1e-12; text columns 0.5e-4 (the %.4f format)"
+                                   "columnfile(merged file)",
+                                   "peaksearcher.peaksearch (several thresholds): .flt and .spt streams",
+                                   "scripts/peaksearch.py on a fabio edf series, --singleThread with header Omega and "
+                                   "threaded with --start/--step: pks_t*.flt and pks_t*.spt"]
+        chk.notes["tolerances"] = ("raw sums exact, except I^2 (values beyond 2^24) and the omega sums (omega not "
+                                   "float32-representable): (n+8)*2.3e-16*sum|terms|; moments 1e-9 rel + 1e-12 + "
+                                   "2e-14*coordinate^2; .flt columns 0.5e-4 (%.4f), .spt columns 0.5e-6 (%f)")
         chk.assumptions = ["connectedpixels' label numbering is stated declaratively (components by first raster "
                            "pixel) and checked against the kernel at every replayed frame; its scan is C11's",
-                           "omega values are exactly representable in float32 (integers / dyadic steps)"]
-        chk.rule = ("behaviours = all frame sequences of the TLC scopes (2x3/1x5/1x7/2x2 exhaustive, 3x3/4x4 "
-                    "simulated) + hand-made + seeded random series up to 40 frames of 16x16; non-trivial = at "
-                    "least one peak merged across frames")
+                           "pixel values and omega are judged as the float32 the wrappers make of them "
+                           "(astype(float32), `real omega`, `real threshold`)",
+                           "components whose summed intensity is 0 (negative threshold only) have no "
+                           "intensity-weighted centroid: their centroid / width columns are not judged"]
+        chk.rule = ("behaviours = all frame sequences of the TLC scopes (2x3/1x5/1x7/2x2, 1x3 or 1x2 x 4 at omega 0,2,2,1, "
+                    "1x3 or 1x2 x 2 over -2..1 at threshold -2 exhaustive, 3x3/4x4 simulated) + hand-made + seeded random series up to "
+                    "40 frames of 16x16 + the instance families counted in notes.families (value classes, shapes "
+                    "to 2048, omega classes); non-trivial = at least one peak merged across frames")
         return chk.finish()
     finally:
         R.c.cimaged11_omp_set_num_threads(old_threads)
@@ -998,6 +1770,59 @@ def selftest(R=None):
     r2[0][M.MXS_] += 1
     must_reject("max position outside the component", lambda: property_judge(case, r2))
     must_reject("a lost peak", lambda: property_judge(case, rows[1:]))
+    # 6b. bounded (not exact) sums: omega that float32 cannot hold
+    ca = make_case(5, 7, 0, 0, 1, handmade_like_frames(), "selftest approx", omegas=[0.1, 0.2, 0.3], approx=True)
+    sa, fa, ma = model_all(ca)
+    if route_labelimage(R, ca, sa, fa, ma.out) or route_kernels(R, ca, sa, fa, ma.out):
+        raise common.MachineryError("selftest: the 0.1-step omega case does not pass on this tree")
+    s6 = copy.deepcopy(sa)
+    s6[-1][2]["lastres"][0, M.OOI_] *= 1 + 1e-9
+    must_reject("omega^2 sum off by 1e-9 relative", lambda: route_labelimage(R, ca, s6, fa, ma.out))
+    cb = dict(ca, omegas=[float(np.float32(o)) + 1e-7 for o in ca["omegas"]])       # not narrowed the same way
+    sb, fb, mb = model_all(cb)
+    must_reject("omega not narrowed to float32", lambda: route_labelimage(R, ca, sb, fb, mb.out))
+    rows = [[float(x) for x in r] for (r, _a, _b, _c) in ma.out]
+    if property_judge(ca, rows) is not None:
+        raise common.MachineryError("selftest: approx judge rejects the correct rows")
+    r2 = [list(r) for r in rows]
+    r2[0][M.OI_] *= 1 + 1e-9
+    must_reject("judge: omega sum off by 1e-9 relative", lambda: property_judge(ca, r2))
+    # 6c. the 2-D output and the flip / spatial columns
+    got = [[float(v) if v is not None else 0.0 for v in expected_2d(R, r)] for r in sa[0][0]["res_exact"]]
+    if check_2d_rows(R, got, sa[0][0]["res_exact"]) is not None:
+        raise common.MachineryError("selftest: check_2d_rows rejects the expected rows")
+    g2 = [list(g) for g in got]
+    g2[0][2] += 2e-6
+    must_reject("2-D peak centroid off by 2e-6", lambda: check_2d_rows(R, g2, sa[0][0]["res_exact"]))
+    must_reject("2-D peak missing", lambda: check_2d_rows(R, got[1:], sa[0][0]["res_exact"]))
+    must_reject("2-D peaks without the spatial correction", lambda: check_2d_rows(R, got, sa[0][0]["res_exact"], affine=True))
+    spt = ("\n\n# File x\n# Omega = 0.1\n# Omega = 0.100000\n# Threshold = 0.000000\n# npks = %d\n" % len(got) +
+           "# Threshold level 0.000000\n# t\n" + "".join(" ".join("%f" % v for v in g) + "\n" for g in got))
+    if check_spt(R, spt, ca, sa[:1], "selftest") is not None:
+        raise common.MachineryError("selftest: check_spt rejects a correct stream: %s" % check_spt(R, spt, ca, sa[:1], "selftest"))
+    must_reject(".spt npks", lambda: check_spt(R, spt.replace("# npks = %d" % len(got), "# npks = 99"), ca, sa[:1], "x"))
+    must_reject(".spt omega", lambda: check_spt(R, spt.replace("# Omega = 0.100000", "# Omega = 0.200000"), ca, sa[:1], "x"))
+    must_reject(".spt lost frame", lambda: check_spt(R, spt, ca, sa[:2], "x"))
+    cf = make_case(5, 7, 0, 0, 1, handmade_like_frames(), "selftest flips")
+    sf, ff, mf = model_all(cf)
+    for fl in range(1, 9):
+        if route_labelimage(R, cf, sf, ff, mf.out, flip=fl, affine=True) is not None:
+            raise common.MachineryError("selftest: flip%d does not pass on this tree" % fl)
+        text = _text_of(R, cf, sf, ff, mf, flip=fl)
+        for other in range(1, 9):
+            if other != fl:
+                must_reject("flip%d read as flip%d" % (fl, other), lambda: check_text(R, text, mf.out, flip=other))
+    must_reject("affine corrector ignored", lambda: check_text(R, _text_of(R, cf, sf, ff, mf), mf.out, affine=True))
+    # 6d. the judgement used for the known finding differs from the strict one only where it should
+    cn = make_case(1, 3, -2, 0, 1, [[-2, -2, -1], [1, -2, -1]], "selftest negative threshold")
+    good = [[float(x) for x in r] for (r, _a, _b, _c) in M.run_model(cn["frames"], 1, 3, -2, omega_of(cn), maxfix=True).out]
+    asis = [[float(x) for x in r] for (r, _a, _b, _c) in M.run_model(cn["frames"], 1, 3, -2, omega_of(cn)).out]
+    if property_judge(cn, good, asis=False) is not None or property_judge(cn, asis, asis=True) is not None:
+        raise common.MachineryError("selftest: negative threshold rows rejected by their own judgement")
+    must_reject("max pixel 0 for a blob of -1 (strict judgement)", lambda: property_judge(cn, asis, asis=False))
+    a2 = [list(r) for r in asis]
+    a2[0][M.I_] += 1
+    must_reject("as-is judgement: intensity", lambda: property_judge(cn, a2, asis=True))
     # 7. transcription vs TLC: a perturbed TLC record must be noticed
     res = common.run_tlc(SPEC, "%s_1x5_f2.cfg" % SPEC, workers=4, timeout=600)
     recs, _ = _parse_printed(res)
@@ -1014,12 +1839,18 @@ def selftest(R=None):
     return True
 
 
-def _text_of(R, case, steps, final, m):
+def handmade_like_frames():
+    return [[0, 3, 4, 0, 0, 0, 1] + [0, 5, 9, 2, 0, 0, 0] + [0] * 7 + [0, 0, 0, 0, 6, 7, 0] + [0] * 7,
+            [0, 0, 2, 0, 0, 0, 1] + [0, 4, 8, 3, 0, 0, 0] + [0] * 7 + [0, 0, 0, 0, 0, 5, 1] + [0] * 7,
+            [0] * 7 + [0, 0, 7, 0, 0, 0, 0] + [0] * 7 + [0, 0, 0, 0, 0, 0, 2] + [0, 0, 0, 0, 0, 0, 3]]
+
+
+def _text_of(R, case, steps, final, m, flip=None):
     out = io.StringIO()
-    omega = omega_fn(case["om0"], case["omstep"])
-    li = R.labelimage.labelimage((case["ns"], case["nf"]), fileout=out, sptfile=io.StringIO())
+    kw = {"flipper": getattr(R.labelimage, "flip%d" % flip)} if flip is not None else {}
+    li = R.labelimage.labelimage((case["ns"], case["nf"]), fileout=out, sptfile=io.StringIO(), **kw)
     for k in range(len(case["frames"])):
-        li.peaksearch(_frame_array(case, k, np.float64), case["thr"], float(omega(k + 1)))
+        li.peaksearch(_frame_array(case, k, np.float64), case["thr"], api_omega(case, k))
         li.mergelast()
     li.finalise()
     return out.getvalue()
